@@ -193,6 +193,7 @@ theorem C02_img_nil_ptr {env : TEnv} {s t se te : Ty} {w : Val} (hs : under env 
   cases h with
   | ptrNil _ _ => rfl
   | toPtr h1 _ _ => exact absurd hs (h1 se)
+  | srcNil _ h2 _ => exact absurd ht (h2 te)
   | sliceNil _ _ => rfl
   | mapNil _ _ => rfl
 
@@ -220,6 +221,8 @@ theorem C02_img_value_to_ptr_nonnil {env : TEnv} {s t te : Ty} {v w : Val} (hs :
   | ptrNil h1 _ => exact absurd h1 (hs _)
   | ptrPtr h1 _ _ => exact absurd h1 (hs _)
   | toPtr _ h2 hi => rw [ht] at h2; cases h2; exact ⟨_, rfl, hi⟩
+  | srcNil h1 _ _ => exact absurd h1 (hs _)
+  | srcPtr h1 _ _ => exact absurd h1 (hs _)
   | sliceNil _ h2 => rw [ht] at h2; cases h2
   | slice _ h2 _ => rw [ht] at h2; cases h2
   | array _ h2 _ => rw [ht] at h2; cases h2
